@@ -66,8 +66,20 @@ def generate_graph(
         exclude_external_libraries, imports, internal_module_prefix, external_exclusions
     )
 
+    # only importees outside the scanned tree become additional modules: an internal name that is no scanned module
+    # (e.g. an object imported via "from . import obj") must not turn into a node
+    internal_prefix_with_separator = internal_module_prefix.rstrip(".") + "."
+    external_imports = [
+        i
+        for i in imports
+        if not (i.importee() + ".").startswith(internal_prefix_with_separator)
+    ]
     all_modules = _append_external_modules_to_module_list(
-        all_modules, exclude_external_libraries, imports, root_path, external_exclusions
+        all_modules,
+        exclude_external_libraries,
+        external_imports,
+        root_path,
+        external_exclusions,
     )
     return EvaluableArchitectureGraph(NetworkxGraph(all_modules, imports, level_limit))
 
